@@ -7,7 +7,7 @@ import re
 
 from ..core import Prop, cps, uncps
 from .. import gamma
-from .escape import cp_ranges, seg_rec, flag, segment, MARK
+from .escape import cp_ranges, seg_rec, seg_or_flag, flag, segment, MARK
 
 CLASS = cps("class")
 STYLE = cps("style")
@@ -246,9 +246,7 @@ class _AttrBase(Prop):
                     t = H.tags.div(b="1", a=x, c="2")
                 return t.get_html_string()
             seg = segment(r, MARK, s)
-            if seg is None:
-                return flag("DRIFT", "context", True, False, g) | {"_module": "EscapeTrace"}
-            return seg_rec("C03", "attr", [("esc", s)], seg, g) | {"_module": "EscapeTrace"}
+            return seg_or_flag("C03", "attr", [("esc", s)], seg, g) | {"_module": "EscapeTrace"}
         if g["kind"] == "fn":
             s = uncps(g["s"])
             out = H.html_escape(s, attr=True)
